@@ -21,6 +21,7 @@ From Coq Require Import QArith.
 From Verif Require Import Prelude Model.Sheet.
 From Verif Require Import Proofs.Sheet Proofs.Sheet2 Proofs.Sheet3 Proofs.Sheet4 Proofs.Sheet5 Proofs.Sheet6 Proofs.Sheet7
                           Proofs.Sheet8 Proofs.Sheet9 Proofs.Sheet10.
+From Verif Require Import Gen.SheetGen Proofs.SheetGen.
 Open Scope Z_scope.
 
 (* ---- accepted workbooks ---- *)
@@ -260,6 +261,56 @@ Theorem C20_header_hazard_links : exists hd,
   parse_row [CStr "A"; CStr "B"; CNum 10] hd "west_distance" = CNum 10.
 Proof. exact header_hazard_links. Qed.
 Print Assumptions C20_header_hazard_links.
+
+(* ---- translator tie: the definitions generated on every run from the source of convert.py / service_sheet.py
+        (Gen/SheetGen.v, harness/pygen_c20.py) are the model's ---- *)
+Theorem C20_source_link_defaulting : g_link_default = default_side /\ forall r, g_mk_link r = mk_link r.
+Proof. split; [exact gen_link_default | exact gen_mk_link]. Qed.
+Print Assumptions C20_source_link_defaulting.
+Theorem C20_source_eqpt_defaulting : forall r, g_mk_eqpt r = mk_eqpt r.
+Proof. exact gen_mk_eqpt. Qed.
+Print Assumptions C20_source_eqpt_defaulting.
+Theorem C20_source_link_eq : forall a b, g_link_eqv a b = link_eqv a b.
+Proof. exact gen_link_eqv. Qed.
+Print Assumptions C20_source_link_eq.
+Theorem C20_source_fiber_element : forall ns d l,
+  fiber_el ns d l =
+  (let* a := lookup_node (fst (g_fiber_mid d l)) ns in
+   let* b := lookup_node (snd (g_fiber_mid d l)) ns in
+   let* _ := pmd_check (match d with East => l_east l | West => l_west l end) in
+   Ok (mkEl (g_fiber_uid d l) (midpoint a b) (g_fiber_content d l))).
+Proof. exact gen_fiber_el. Qed.
+Print Assumptions C20_source_fiber_element.
+Theorem C20_source_eqpt_element : forall ns d e,
+  eqpt_el ns d e =
+  (let* a := lookup_node (g_amp_city d e) ns in Ok (mkEl (g_amp_uid d e) (node_loc a) (g_amp_content d e))).
+Proof. exact gen_eqpt_el. Qed.
+Print Assumptions C20_source_eqpt_element.
+Theorem C20_source_fiber_link : forall f t ls,
+  fiber_link f t ls =
+  match find (fun li => in2 (l_from li) f t && in2 (l_to li) f t) (links_of f ls) with
+  | Some li => Ok (g_fiber_link_uid f t li)
+  | None => Err "StopIteration:fiber_link"%string
+  end.
+Proof. exact gen_fiber_link. Qed.
+Print Assumptions C20_source_fiber_link.
+Theorem C20_source_eqpt_in_city_to_city : forall c to_ es t d, g_ein c to_ es t d = eqpt_in_city_to_city c to_ es t d.
+Proof. exact gen_ein. Qed.
+Print Assumptions C20_source_eqpt_in_city_to_city.
+Theorem C20_source_sanity_check : forall ns ls es,
+  g_sanity_check ns ls es = sanity_check ns ls es /\ forall n, g_correct_type ls n = correct_type ls n.
+Proof. intros. split; [apply gen_sanity_check | intros; apply gen_correct_type]. Qed.
+Print Assumptions C20_source_sanity_check.
+Theorem C20_source_request_units : forall equipment bidir r q, request_element equipment bidir r = Ok q ->
+  g_spacing r = Some (r_spacing_hz q) /\ g_power_dbm r = r_power_dbm q /\ g_nbch r = r_nbch q /\ g_bw r = r_bw_bps q.
+Proof. exact gen_request_units. Qed.
+Print Assumptions C20_source_request_units.
+Theorem C20_source_route_pops : forall src dst l, g_pop_ends src dst l = pop_ends src dst l.
+Proof. exact gen_pop_ends. Qed.
+Print Assumptions C20_source_route_pops.
+Theorem C20_source_route_writeback : forall i n s live, g_writeback i n s live = replace_first n s live.
+Proof. exact gen_writeback. Qed.
+Print Assumptions C20_source_route_writeback.
 
 (* ---- non-vacuity ---- *)
 (* ROADM A, ROADM B, an ILA I (Eqpt row naming its second neighbour), an ILA J without row, a FUSED site F, a site K
